@@ -333,11 +333,14 @@ func optionSemantics(w *World, r *Report, prop string) {
 		}
 		return false
 	}
+	// env: while the body of a loop over a table of (option, setter) rows is evaluated, the row each table is at
+	var env rowEnv
 	var flow func(v ssa.Value, bs bindings, fa *facts, depth int, seen map[ssa.Value]bool)
 	flow = func(v ssa.Value, bs bindings, fa *facts, depth int, seen map[ssa.Value]bool) {
 		if depth > 14 || v == nil {
 			return
 		}
+		v = w.resolveRow(v, env)
 		if seen[v] {
 			return
 		}
@@ -363,11 +366,8 @@ func optionSemantics(w *World, r *Report, prop string) {
 					return
 				}
 				idx := lk.Index
-				if p, ok := stripIdentity(idx).(*ssa.Parameter); ok {
-					if a, bound := bs[p]; bound {
-						idx = a
-					}
-				}
+				idx = resolveParamChain(idx, bs)
+				idx = w.resolveRow(idx, env)
 				if k, ok := constString(idx); ok {
 					fa.keys[k] = true
 					// every use of the value sits behind the "present" edge
@@ -401,11 +401,8 @@ func optionSemantics(w *World, r *Report, prop string) {
 		case *ssa.Lookup:
 			if isOptions(x.X, bs) {
 				idx := x.Index
-				if p, ok := stripIdentity(idx).(*ssa.Parameter); ok {
-					if a, bound := bs[p]; bound {
-						idx = a
-					}
-				}
+				idx = resolveParamChain(idx, bs)
+				idx = w.resolveRow(idx, env)
 				if k, ok := constString(idx); ok {
 					fa.keys[k] = true
 				} else {
@@ -420,25 +417,29 @@ func optionSemantics(w *World, r *Report, prop string) {
 		case *ssa.BinOp:
 			// a comparison with a literal ("true") yields a computed boolean: the literal is not a default
 			if x.Op == token.EQL || x.Op == token.NEQ {
-				sub := &facts{keys: fa.keys, consts: map[string]bool{}}
-				flow(x.X, bs, sub, depth+1, seen)
-				flow(x.Y, bs, sub, depth+1, seen)
-				fa.unsafe = append(fa.unsafe, sub.unsafe...)
-				// the empty string (an option that was not written, read by a plain lookup) compared with a non-empty literal: the
-				// comparison's value for the missing option is a constant that reaches the field
-				if sub.consts[`""`] {
-					other := false
-					for c := range sub.consts {
-						if c != `""` {
-							other = true
+				subX := &facts{keys: fa.keys, consts: map[string]bool{}}
+				subY := &facts{keys: fa.keys, consts: map[string]bool{}}
+				flow(x.X, bs, subX, depth+1, seen)
+				flow(x.Y, bs, subY, depth+1, seen)
+				fa.unsafe = append(fa.unsafe, subX.unsafe...)
+				fa.unsafe = append(fa.unsafe, subY.unsafe...)
+				// a constant that can stand for the option's value (the empty string of a plain lookup of a missing option, the default a
+				// helper returns) compared with the literal: the outcome of that comparison is a constant that reaches the field
+				lit, side := x.Y, subX
+				if _, isC := stripIdentity(x.Y).(*ssa.Const); !isC {
+					lit, side = x.X, subY
+				}
+				if ls, ok := constString(lit); ok {
+					for c := range side.consts {
+						cs, err := strconv.Unquote(c)
+						if err != nil {
+							continue
 						}
-					}
-					if other {
-						if x.Op == token.EQL {
-							fa.consts["false"] = true
-						} else {
-							fa.consts["true"] = true
+						eq := strings.EqualFold(cs, ls) // the value may pass through ToLower/ToUpper on its way
+						if x.Op == token.NEQ {
+							eq = !eq
 						}
+						fa.consts[strconv.FormatBool(eq)] = true
 					}
 				}
 				return
@@ -480,54 +481,120 @@ func optionSemantics(w *World, r *Report, prop string) {
 		fn  *ssa.Function
 		blk *ssa.BasicBlock
 		bs  bindings
+		env rowEnv
 	}
 	storeSites := map[string][]storeSite{}
 	// stores into Configuration / Padding fields in NewConfiguration and the model helpers it calls
-	seenFn := map[*ssa.Function]bool{nc: true}
 	type job struct {
 		fn *ssa.Function
 		bs bindings
 	}
-	work := []job{{nc, bindings{}}}
-	for i := 0; i < len(work) && i < 16; i++ {
-		j := work[i]
-		forEachInstr(j.fn, func(b *ssa.BasicBlock, ins ssa.Instruction) {
-			switch x := ins.(type) {
-			case *ssa.Store:
-				fa, ok := x.Addr.(*ssa.FieldAddr)
-				if !ok {
-					return
-				}
-				tn, f, _, _ := fieldOf(fa)
-				name := ""
-				switch tn {
-				case "Configuration":
-					name = f
-				case "Padding":
-					name = "Padding." + f
-				}
-				if name == "" || name == "Padding" {
-					return
-				}
-				flow(x.Val, j.bs, get(name), 0, map[ssa.Value]bool{})
-				storeSites[name] = append(storeSites[name], storeSite{j.fn, b, j.bs})
-			case ssa.CallInstruction:
-				if h := x.Common().StaticCallee(); h != nil && pkgOfFunc(h) == w.Model && h.Blocks != nil && !seenFn[h] {
-					seenFn[h] = true
-					nb := bindings{}
-					for k, val := range j.bs {
-						nb[k] = val
+	// one evaluation per row of a table the function walks (none: one evaluation)
+	envs := []rowEnv{nil}
+	for _, g := range w.tablesWalkedBy(nc) {
+		for i := range w.tableRows(g) {
+			envs = append(envs, rowEnv{g: i})
+		}
+	}
+	if len(envs) > 1 {
+		envs = envs[1:]
+	}
+	for _, env = range envs {
+		seenFn := map[*ssa.Function]bool{nc: true}
+		work := []job{{nc, bindings{}}}
+		for i := 0; i < len(work) && i < 16; i++ {
+			j := work[i]
+			forEachInstr(j.fn, func(b *ssa.BasicBlock, ins ssa.Instruction) {
+				switch x := ins.(type) {
+				case *ssa.Store:
+					fa, ok := x.Addr.(*ssa.FieldAddr)
+					if !ok {
+						return
 					}
-					for i2, p := range h.Params {
-						if i2 < len(x.Common().Args) {
-							nb[p] = x.Common().Args[i2]
+					tn, f, _, _ := fieldOf(fa)
+					name := ""
+					switch tn {
+					case "Configuration":
+						name = f
+					case "Padding":
+						name = "Padding." + f
+					}
+					if name == "" || name == "Padding" {
+						return
+					}
+					flow(x.Val, j.bs, get(name), 0, map[ssa.Value]bool{})
+					storeSites[name] = append(storeSites[name], storeSite{j.fn, b, j.bs, env})
+				case ssa.CallInstruction:
+					h := x.Common().StaticCallee()
+					if h == nil && !x.Common().IsInvoke() {
+						// the setter of the current table row
+						switch f := w.resolveRow(x.Common().Value, env).(type) {
+						case *ssa.Function:
+							h = f
+						case *ssa.MakeClosure:
+							h, _ = f.Fn.(*ssa.Function)
 						}
 					}
-					work = append(work, job{h, nb})
+					if h != nil && pkgOfFunc(h) == w.Model && h.Blocks != nil && !seenFn[h] {
+						seenFn[h] = true
+						nb := bindings{}
+						for k, val := range j.bs {
+							nb[k] = val
+						}
+						for i2, p := range h.Params {
+							if i2 < len(x.Common().Args) {
+								nb[p] = x.Common().Args[i2]
+							}
+						}
+						work = append(work, job{h, nb})
+					}
+				}
+			})
+		}
+	}
+	env = nil
+	// a member the literal does not mention starts as the zero value of its type: that is the constant that reaches it by default
+	forEachInstr(nc, func(b *ssa.BasicBlock, ins ssa.Instruction) {
+		al, ok := ins.(*ssa.Alloc)
+		if !ok || al.Referrers() == nil {
+			return
+		}
+		tn := modelTypeName(al.Type())
+		if tn != "Configuration" && tn != "Padding" {
+			return
+		}
+		st, ok := al.Type().(*types.Pointer).Elem().Underlying().(*types.Struct)
+		if !ok {
+			return
+		}
+		set := map[int]bool{}
+		for _, ref := range *al.Referrers() {
+			fa, ok := ref.(*ssa.FieldAddr)
+			if !ok || fa.Referrers() == nil {
+				continue
+			}
+			for _, r2 := range *fa.Referrers() {
+				if s2, ok := r2.(*ssa.Store); ok && s2.Addr == ssa.Value(fa) && s2.Block() == b {
+					set[fa.Field] = true
 				}
 			}
-		})
-	}
+		}
+		for i := 0; i < st.NumFields(); i++ {
+			if set[i] {
+				continue
+			}
+			name := st.Field(i).Name()
+			if tn == "Padding" {
+				name = "Padding." + name
+			}
+			switch {
+			case isStringType(st.Field(i).Type()):
+				get(name).consts[`""`] = true
+			case types.Identical(st.Field(i).Type().Underlying(), types.Typ[types.Bool]):
+				get(name).consts["false"] = true
+			}
+		}
+	})
 	// which configuration fields exist (a renamed field is reported as not judged rather than guessed)
 	exists := map[string]bool{}
 	if mp := w.ByPath[modPath+"/internal/model"]; mp != nil {
@@ -574,11 +641,8 @@ func optionSemantics(w *World, r *Report, prop string) {
 						continue
 					}
 					idx := t.lookup.Index
-					if p, ok := stripIdentity(idx).(*ssa.Parameter); ok {
-						if a, bound := ss.bs[p]; bound {
-							idx = a
-						}
-					}
+					idx = resolveParamChain(idx, ss.bs)
+					idx = w.resolveRow(idx, ss.env)
 					if k, ok := constString(idx); ok && k != opt {
 						other = k
 					}
@@ -748,17 +812,12 @@ func c12OptionValidation(w *World, r *Report, prop string) {
 				if neg {
 					member, notMember = 1, 0
 				}
-				for _, b3 := range fn.Blocks {
-					for _, i3 := range b3.Instrs {
-						if !isAddSyntaxError(i3) {
-							continue
-						}
-						if edgeDominates(bb, notMember, b3) {
-							good = true
-						}
-						if edgeDominates(bb, member, b3) {
-							bad = true
-						}
+				for _, b3 := range w.diagnosticBlocks(fn) {
+					if edgeDominates(bb, notMember, b3) {
+						good = true
+					}
+					if edgeDominates(bb, member, b3) {
+						bad = true
 					}
 				}
 			}
@@ -879,17 +938,12 @@ func c12OptionValidation(w *World, r *Report, prop string) {
 					if neg {
 						member, notMember = 1, 0
 					}
-					for _, b3 := range fn.Blocks {
-						for _, i3 := range b3.Instrs {
-							if !isAddSyntaxError(i3) {
-								continue
-							}
-							if edgeDominates(bb, notMember, b3) {
-								good = true
-							}
-							if edgeDominates(bb, member, b3) {
-								bad = true
-							}
+					for _, b3 := range w.diagnosticBlocks(fn) {
+						if edgeDominates(bb, notMember, b3) {
+							good = true
+						}
+						if edgeDominates(bb, member, b3) {
+							bad = true
 						}
 					}
 				}
@@ -1886,4 +1940,174 @@ func isMembershipPredicateD(f *ssa.Function, depth int) (bool, string) {
 		return false, "too deep"
 	}
 	return isMembershipPredicate(f)
+}
+
+// resolveParamChain: v with parameters replaced by what the call sites on the way bound them to.
+func resolveParamChain(v ssa.Value, bs bindings) ssa.Value {
+	for i := 0; i < 8; i++ {
+		p, ok := stripIdentity(v).(*ssa.Parameter)
+		if !ok {
+			return v
+		}
+		a, bound := bs[p]
+		if !bound {
+			return v
+		}
+		v = a
+	}
+	return v
+}
+
+// diagnosticBlocks: the blocks of fn in which the input is rejected: a diagnostic is recorded there, or fn returns there a message
+// that every caller records as a diagnostic exactly when it is not empty (the validation split into "decide" and "report").
+func (w *World) diagnosticBlocks(fn *ssa.Function) []*ssa.BasicBlock {
+	var out []*ssa.BasicBlock
+	for _, b := range fn.Blocks {
+		for _, ins := range b.Instrs {
+			if isAddSyntaxError(ins) {
+				out = append(out, b)
+				break
+			}
+		}
+	}
+	res := fn.Signature.Results()
+	for i := 0; i < res.Len(); i++ {
+		if !isStringType(res.At(i).Type()) || !w.messageResultReported(fn, i) {
+			continue
+		}
+		for _, b := range fn.Blocks {
+			ret, ok := b.Instrs[len(b.Instrs)-1].(*ssa.Return)
+			if !ok || i >= len(ret.Results) {
+				continue
+			}
+			switch x := stripIdentity(ret.Results[i]).(type) {
+			case *ssa.Const:
+				if s, ok := constString(x); !ok || s != "" {
+					out = append(out, b)
+				}
+			case *ssa.Phi:
+				for j, e := range x.Edges {
+					if s, ok := constString(e); ok && s == "" {
+						continue
+					}
+					out = append(out, x.Block().Preds[j])
+				}
+			default:
+				out = append(out, b)
+			}
+		}
+	}
+	return out
+}
+
+// messageResultReported: every call site of fn hands result i to the diagnostics on the edge where it is not the empty string.
+func (w *World) messageResultReported(fn *ssa.Function, i int) bool {
+	n := w.CallGraph().Nodes[fn]
+	if n == nil || len(n.In) == 0 {
+		return false
+	}
+	for _, e := range n.In {
+		c, ok := e.Site.(*ssa.Call)
+		if !ok {
+			return false
+		}
+		var msg ssa.Value = c
+		if fn.Signature.Results().Len() > 1 {
+			msg = nil
+			for _, ref := range *c.Referrers() {
+				if ex, ok := ref.(*ssa.Extract); ok && ex.Index == i {
+					msg = ex
+				}
+			}
+		}
+		if msg == nil || msg.Referrers() == nil {
+			return false
+		}
+		reported := false
+		for _, ref := range *msg.Referrers() {
+			bo, ok := ref.(*ssa.BinOp)
+			if !ok || (bo.Op != token.NEQ && bo.Op != token.EQL) || bo.Referrers() == nil {
+				continue
+			}
+			other := bo.Y
+			if stripIdentity(bo.Y) == msg {
+				other = bo.X
+			}
+			if s, ok := constString(other); !ok || s != "" {
+				continue
+			}
+			nonEmpty := 0
+			if bo.Op == token.EQL {
+				nonEmpty = 1
+			}
+			for _, r2 := range *bo.Referrers() {
+				iff, ok := r2.(*ssa.If)
+				if !ok {
+					continue
+				}
+				for _, b3 := range c.Parent().Blocks {
+					for _, i3 := range b3.Instrs {
+						if isAddSyntaxError(i3) && edgeDominates(iff.Block(), nonEmpty, b3) && usesValue(i3, msg) {
+							reported = true
+						}
+					}
+				}
+			}
+		}
+		if !reported {
+			return false
+		}
+	}
+	return true
+}
+
+// usesValue: the instruction's operands reach v through records, conversions and concatenation built in the same function.
+func usesValue(ins ssa.Instruction, v ssa.Value) bool {
+	seen := map[ssa.Value]bool{}
+	var walk func(x ssa.Value, depth int) bool
+	walk = func(x ssa.Value, depth int) bool {
+		if x == nil || depth > 8 || seen[x] {
+			return false
+		}
+		seen[x] = true
+		if x == v {
+			return true
+		}
+		switch y := x.(type) {
+		case *ssa.Alloc:
+			if y.Referrers() != nil {
+				for _, ref := range *y.Referrers() {
+					switch z := ref.(type) {
+					case *ssa.Store:
+						if z.Addr == ssa.Value(y) && walk(z.Val, depth+1) {
+							return true
+						}
+					case *ssa.FieldAddr:
+						if z.Referrers() != nil {
+							for _, r2 := range *z.Referrers() {
+								if st, ok := r2.(*ssa.Store); ok && st.Addr == ssa.Value(z) && walk(st.Val, depth+1) {
+									return true
+								}
+							}
+						}
+					}
+				}
+			}
+			return false
+		}
+		if in, ok := x.(ssa.Instruction); ok {
+			for _, op := range in.Operands(nil) {
+				if *op != nil && walk(*op, depth+1) {
+					return true
+				}
+			}
+		}
+		return false
+	}
+	for _, op := range ins.Operands(nil) {
+		if *op != nil && walk(*op, 0) {
+			return true
+		}
+	}
+	return false
 }
